@@ -23,7 +23,7 @@ import tempfile
 import threading
 import time
 
-VERIF = os.path.dirname(os.path.dirname(os.path.abspath(__file__)))
+VERIF = os.environ.get("SURVEY_VERIF") or os.path.dirname(os.path.dirname(os.path.abspath(__file__)))
 
 TARGETS = {
     "taskiq/receiver/receiver.py": ["C01", "C02", "C03", "C04", "C05", "C07", "C06", "C10", "C12", "C11", "C08", "C09"],
@@ -201,7 +201,11 @@ def worker(idx, queue, results, lock, div, check_jobs):
                         break
                     hits = [ln for ln in c.stdout.splitlines() if ln.startswith("violation class=")]
                     rec["checks"][prop] = c.returncode
-                    if c.returncode != 0:
+                    if c.returncode != 0 and not (c.returncode == 1 and "VIOLATION property=" in c.stdout):
+                        rec["checks"][prop] = f"check-error exit={c.returncode}"
+                        rec["check_error"] = (c.stdout.strip().splitlines()[-1][:160] if c.stdout.strip() else c.stderr[-200:])
+                        continue
+                    if c.returncode == 1:
                         rec["verdict"] = "detected"
                         rec["by"] = prop
                         rec["class"] = hits[0].split(" ")[1] if hits else (c.stdout.strip().splitlines()[-1][:120] if c.stdout.strip() else c.stderr[-200:])
